@@ -267,6 +267,7 @@ func c14UdfOne(c *core.Ctx, dir string, k c14UdfCase, refs map[string]string) {
 	}
 	after := c14UdfObjects(env)
 	c.Eval("udf|"+k.Name, nontrivial)
+	// debugging aid: C14_DUMP=<path prefix> writes every program with what it printed
 	if d := os.Getenv("C14_DUMP"); d != "" {
 		if f, err := os.OpenFile(fmt.Sprintf("%s.udf.%d", d, os.Getpid()), os.O_APPEND|os.O_CREATE|os.O_WRONLY, 0644); err == nil {
 			fmt.Fprintf(f, "%s\n  %s\n  got:  %q\n  want: %q\n", k.Name, c14UdfText(k), got, want)
